@@ -1,5 +1,6 @@
 import ServiceModel.Proofs.Reachable
 import ServiceModel.Proofs.MonitorSound
+import ServiceModel.Proofs.ModSvc
 /-!
 # C01 — Escrowed service fees are always exactly backed
 
@@ -45,5 +46,18 @@ theorem escrow_backed_after_new_batch_handler (s : State) (c : CtxId) (h : Inv s
     alarm of it on an implementation state shows a state the model cannot reach. -/
 theorem escrow_monitor_implied {cfg : Config} {p : Params} {h0 t0 : Int} (hc : CfgOK cfg p) {s : State}
     (hr : Reachable cfg p h0 t0 s) : Mon.escrowBacked s = [] := escrowBacked_sound (reachable_inv hc hr)
+
+/-- The module-service branch (`handler.go`, `keeper/module_service.go`; model `callMod`, outside `step`): from every
+    reachable state, a module-service call by an ordinary account — accepted or rejected, whatever the module
+    answers — leaves the escrow exactly backed. One step only: the records this branch leaves behind break the
+    invocation-world invariants (DESIGN.md §10.10), so histories that continue after such a call are covered by the
+    correspondence run and the monitors, not by `escrow_backed`. -/
+theorem escrow_backed_after_module_service_call {cfg : Config} {p : Params} {h0 t0 : Int} (hc : CfgOK cfg p) {s : State}
+    (hr : Reachable cfg p h0 t0 s) (id : CtxId) (svc : SvcName) (prov cons : Addr) (cap : Option Nat) (inputOk : Bool)
+    (code : Nat) (out : OutKind) (hcons : ¬ s.modAcct cons) (hfresh : id ∉ s.usedIds) :
+    (callMod s id svc prov cons cap inputOk code out).1.bal (callMod s id svc prov cons cap inputOk code out).1.cfg.escrow =
+      activeFees (callMod s id svc prov cons cap inputOk code out).1 + earnedSum (callMod s id svc prov cons cap inputOk code out).1 := by
+  have := (callMod_invM s id svc prov cons cap inputOk code out (reachable_inv hc hr) hcons hfresh).escrow
+  rw [activeFees_eq]; exact this
 
 end SM.C01
